@@ -593,6 +593,9 @@ func cmdDump(repo, key string) {
 		f := filepath.Join(dir, safeName.ReplaceAllString(o.Name, "_")+".smt2")
 		os.WriteFile(f, []byte(o.query("", true)), 0o644)
 		fmt.Println(o.Name, "->", f)
+		if o.Known != nil {
+			os.WriteFile(strings.TrimSuffix(f, ".smt2")+".carved.smt2", []byte(o.query(not(o.KnownEx), false)), 0o644)
+		}
 	}
 	for _, g := range gr.gens {
 		for _, wmsg := range g.warnings {
